@@ -68,14 +68,22 @@ def observers():
         ("rcB", S(("x", ["RawCopy", BYTE]), ("t", ["Tell"]))),
         ("pEnd", S(("p", ["Pointer", -1, BYTE]), ("t", ["Tell"]))),
         ("pAbs", S(("p", ["Pointer", 4, BYTE]), ("t", ["Tell"]), ("g", ["GreedyBytes"]))),
+        # relative and end-relative repositioning inside the region
+        ("skF", S(("b", BYTE), ("s", ["Seek", 1, 1]), ("t", ["Tell"]), ("g", ["GreedyBytes"]))),
+        ("skB", S(("b", ["Bytes", 2]), ("s", ["Seek", -1, 1]), ("t", ["Tell"]), ("g", ["GreedyBytes"]))),
+        ("skE", S(("s", ["Seek", -1, 2]), ("t", ["Tell"]), ("g", ["GreedyBytes"]))),
+        ("skA", S(("b", BYTE), ("s", ["Seek", 4, 0]), ("t", ["Tell"]), ("g", ["GreedyBytes"]))),
     ]
 
 
 def mk_term(dnames, obs):
     D = dict(delimiters())
     x = dict(observers())[obs]
-    for n in reversed(dnames):
+    for i, n in enumerate(reversed(dnames)):
         x = D[n](x)
+        if i < len(dnames) - 1:
+            # what follows a nested region inside its parent region: the position it left behind and the rest of the parent
+            x = ["Struct", [["in", x], ["at", ["Tell"]], ["rest", ["GreedyBytes"]]]]
     return ["Struct", [["r", x], ["end", ["Tell"]]]]
 
 
